@@ -290,6 +290,9 @@ def match_known(known, pid, clause, rec):
 #   PROPS = {"Cnn": ModuleCheck(...)}   and   TEXT = {"Cnn": {design, text, note}}
 PROPS = {}
 TEXT = {}
+# RECORD entries of all modules: drivers whose random histories are recorded
+# (VERIF_RECORD_DIR) and replayed by the cross-module checks C11 / C12.
+RECORDS = []
 
 
 def _load():
@@ -299,6 +302,7 @@ def _load():
         spec = importlib.util.spec_from_file_location("propdefs_" + os.path.basename(f)[:-3], f)
         m = importlib.util.module_from_spec(spec)
         spec.loader.exec_module(m)
+        RECORDS.extend(getattr(m, "RECORD", []))
         PROPS.update(getattr(m, "PROPS", {}))
         TEXT.update(getattr(m, "TEXT", {}))
 
